@@ -149,6 +149,9 @@ def decimal_text(s):
     ('unclear', None) otherwise (only "no exception" is required)."""
     t = s.strip(' \t\r\n')
     if _DECIMAL.match(t):
+        if len(t) > 400:
+            # (python's int() refuses texts of more than 4300 digits; such a number is far outside of every range)
+            return 'number', Fraction(-10 ** 30 if t.startswith('-') else 10 ** 30)
         return 'number', Fraction(t)
     if '_' in s:
         return 'not-a-number', 'underscore'
